@@ -53,17 +53,18 @@ Extra == {<<>>, <<H(<<88>>, <<97>>), H(<<88>>, <<98>>)>>}
 
 Mk(b, st, m, cl, lc, pre, ncb, plan, ex) ==
   [shape |-> b.shape, items |-> b.items, pt |-> b.pt, st |-> st, method |-> m, cl |-> cl,
-   stage |-> 1, loc |-> lc[1], ac |-> lc[2], pre |-> pre, ncb |-> ncb, plan |-> plan, hdrs |-> ex]
+   stage |-> 1, loc |-> lc[1], ac |-> lc[2], pre |-> pre, ncb |-> ncb, plan |-> plan, ex |-> ex, envstd |-> TRUE,
+   hdrs |-> Construct(b.shape, Concat([k \in 1..Len(b.items) |-> EncItem(b.items[k])]), cl, lc[1], ex)]
 
-\* "t": the full product except that Location kinds are only combined with 201 / 3xx statuses.
-\* "q" / "x": every value of every dimension, the secondary dimensions (preset length, location,
-\* pre-access, callbacks, plan, extra headers) varied one at a time around the default; "x"
-\* additionally keeps the non-int status kinds only for the default secondary dimensions.
+\* Every body x method x status is combined with the secondary dimensions (preset length, location,
+\* pre-access, callbacks, plan, extra headers) varied around the default: one at a time ("q", "x")
+\* or two at a time ("t", which also has more items and statuses); Location kinds only with
+\* 201 / 3xx statuses; "x" keeps the non-int status kinds only for the default secondary dimensions.
 NonDefault(cl, lc, pre, ncb, plan, ex) ==
   Cardinality({k \in 1..6 : ~(<<cl = None, lc[1] = None, pre = "none", ncb = 2, plan = 99, ex = <<>> >>)[k]})
 \* constant sets (evaluated once): secondary dimensions and statuses, already sliced
 Secondary == {s \in CLs \X Locs \X Pres \X NCBs \X Plans \X Extra :
-                Size = "t" \/ NonDefault(s[1], s[2], s[3], s[4], s[5], s[6]) <= 1}
+                NonDefault(s[1], s[2], s[3], s[4], s[5], s[6]) <= (IF Size = "t" THEN 2 ELSE 1)}
 IsDefault(s) == NonDefault(s[1], s[2], s[3], s[4], s[5], s[6]) = 0
 SecDefault == {s \in Secondary : IsDefault(s)}
 SecLoc == {s \in Secondary : s[2][1] # None}
